@@ -5,6 +5,7 @@ import (
 	"go/ast"
 	"go/token"
 	"go/types"
+	"reflect"
 	"strings"
 
 	"golang.org/x/tools/go/packages"
@@ -311,6 +312,9 @@ func typeIs(t types.Type, pkgPath, name string) bool {
 
 // inspectNoLit walks n without descending into function literals (code in a closure is not executed here).
 func inspectNoLit(n ast.Node, f func(ast.Node) bool) {
+	if n == nil || (reflect.ValueOf(n).Kind() == reflect.Ptr && reflect.ValueOf(n).IsNil()) {
+		return
+	}
 	ast.Inspect(n, func(x ast.Node) bool {
 		if _, ok := x.(*ast.FuncLit); ok {
 			return false
